@@ -1454,6 +1454,15 @@ def auto_filter_probe(chk):
                  {"history": AUTO_FILTER_PROBE})
 
 
+for _v in BACKENDS:
+    for _ops in ([["circ", "A"], ["in", [1, 1]], ["q", "dist"], ["circ", "C"], ["in", [1, 1, 0]], ["q", "dist"]],
+                 [["circ", "C"], ["in", [1, 1, 0]], ["q", "evolve"], ["circ", "A"], ["in", [1, 1]], ["q", "evolve"]],
+                 [["circ", "A"], ["in", [1, 1]], ["q", "dist"], ["circ", "B"], ["in", [1, 1]], ["q", "dist"],
+                  ["in", [2, 0]], ["q", "allprob"], ["circ", "A"], ["in", [1, 1]], ["q", "evolve"]]):
+        DIRECTED.append({"family": "backend", "variant": _v, "params": {}, "circuits": short_alphabet(_v)[0],
+                         "ops": _ops})
+
+
 def run(chk: core.Check):
     chk.rule = ("distinct (family, engine, sequence of operation kinds) histories containing at least one "
                 "configuration change after a first query and a later query")
